@@ -161,7 +161,20 @@ def impl_real_gap_check(inp):
         return "shape", dict(shape=list(out.shape))
     if not np.isfinite(out).all():
         idx = np.where(~np.isfinite(out))[0]
-        return "undefined-value", dict(count=int(idx.size), first_indices=idx[:10].tolist())
+        # a window at the edge of a sub-annual series may hold only one or two values of the corrected series: a
+        # distribution-fitting method has nothing to fit there (zero spread) — that is the method's domain, not the window
+        # bookkeeping C07 is about.  Time steps adjusted from such a window are excused (and counted); any other
+        # undefined value is reported.
+        from ibicus.utils import day_of_year
+        rw = d.running_window; days = day_of_year(tS)
+        thin = set()
+        for centre, adj in rw.use(days):
+            if len(rw.get_indices_vals_in_window(days, centre)) < 3:
+                thin.update(int(k) for k in adj)
+        rest = [int(k) for k in idx if int(k) not in thin]
+        if not rest:
+            return None, dict(excused_thin_window=int(idx.size))
+        return "undefined-value", dict(count=len(rest), first_indices=rest[:10])
     return None, None
 
 def k19(res, tier, seed, tag="k19"):
@@ -420,6 +433,7 @@ def search(res, tier, seed, deep=False):
                        start_corrected=start_s, start_calibration=start_c, data_seed=int(rs.randint(1 << 30)),
                        years_windows=(name in ("CDFt", "QuantileDeltaMapping") and r.random() < 0.5))
             bad, det = impl_real_gap_check(inp)
+            if det and det.get("excused_thin_window"): res.count("real-gap-thin-window-excused:" + name)
             res.case(("E", name))
             if bad:
                 report(name + ".apply_location", bad, inp, det,
